@@ -6,7 +6,9 @@ Results are written to /verif/seeded/<Cnn>_mK/ (patch.diff, demo.py, meta.json).
 import json, os, subprocess, sys, shutil, re
 
 FLAKY = ("test_add_different_scale_points", "test_add_same_scale_points", "test_sig_verify", "test_p192_mult_tests",
-         "test_multithreading_with_interrupts", "test_add_one_scaled_point")
+         "test_multithreading_with_interrupts", "test_add_one_scaled_point",
+         # timing-dependent under load (sleep-based / hypothesis deadline): seen failing on the unchanged tree when 10+ jobs share the machine
+         "test_writer_priority", "test_lcm_with_random_numbers")
 SEEDED = "/verif/seeded"
 ROUND = int(os.environ.get("ROUND", "1"))
 
